@@ -575,7 +575,7 @@ Proof.
     destruct (gtime_eqb now (sy_now s) && task_eqb snap t); inv H. exact T.
   - destruct (str_mem id (sy_running s)).
     + inv H. exact T.
-    + destruct o; try discriminate. destruct (List.find _ (sy_accepted s)); inv H. exact T.
+    + destruct o; try discriminate; (destruct (List.find _ (sy_accepted s)); inv H; exact T).
   - destruct (_ && _); inv H. exact T.
   - destruct (sy_pc s); try discriminate. destruct (tm_pending _); inv H. simp_sys. apply consume_ok.
   - discriminate.
@@ -1324,8 +1324,8 @@ Proof.
   - (* LWorkEnd *)
     unfold sstepf in H. cbn [sys_step] in H. destruct (str_mem id (sy_running s)) eqn:M.
     + inv H. pose proof (str_del_length _ _ M). unfold mu; simp_all; unfold pot. rewrite app_length. cbn [List.length]. lia.
-    + destruct o; try discriminate. destruct (List.find _ (sy_accepted s)) eqn:F; inv H.
-      pose proof (remove_first_length _ _ F). unfold mu; simp_all; unfold pot. rewrite app_length. cbn [List.length]. lia.
+    + destruct o; try discriminate; (destruct (List.find _ (sy_accepted s)) eqn:F; inv H;
+      pose proof (remove_first_length _ _ F); unfold mu; simp_all; unfold pot; rewrite app_length; cbn [List.length]; lia).
   - (* LFire *)
     unfold sstepf in H. cbn [sys_step] in H. destruct (sy_pc s) eqn:P; try discriminate.
     destruct (tm_pending (hs_timer (sy_h s))) eqn:Pe; inv H.
